@@ -167,7 +167,12 @@ def _hook_driven_checks(index, ctx, td, ini, c, sup, T, PAIR, DICT, overridden, 
         loops = [n for n in ast.walk(ap[1].node) if isinstance(n, ast.For)]
         good = len(loops) == 1 and "items" in norm_text(loops[0].iter) and not any(isinstance(x, (ast.Break, ast.Return, ast.Continue)) for x in ast.walk(loops[0])) and \
             any(isinstance(x, ast.Call) and isinstance(x.func, ast.Attribute) and x.func.attr == PAIR for x in ast.walk(loops[0]))
-        ctx.require(good, "R6", "TensorDict: the all-pairs driver visits every item", "loop over items() without early exit", "the per-pair check does not visit every (key, value) pair", ap[1].loc())
+        reporting_driver = len(loops) == 1 and "items" in norm_text(loops[0].iter) and not any(isinstance(x, (ast.Break, ast.Continue)) for x in ast.walk(loops[0])) and \
+            all(isinstance(x.value, ast.Name) for x in ast.walk(loops[0]) if isinstance(x, ast.Return) and x.value is not None) and any(isinstance(x, ast.Return) for x in ast.walk(loops[0]))
+        if not good and reporting_driver:
+            ctx.undecided("R6", "TensorDict: the all-pairs driver visits every item", "the driver returns the first reported violation instead of letting the hook raise: a layout this rule does not read", ap[1].loc())
+        else:
+            ctx.require(good, "R6", "TensorDict: the all-pairs driver visits every item", "loop over items() without early exit", "the per-pair check does not visit every (key, value) pair", ap[1].loc())
     for hf in [f for f in td.module.functions.values() if any(isinstance(x, ast.Raise) and "ValueError" in norm_text(x) for x in ast.walk(f.node))]:
         for comp in [n for n in ast.walk(hf.node) if isinstance(n, (ast.ListComp, ast.SetComp, ast.GeneratorExp, ast.DictComp))]:
             filt = [g for g in comp.generators if g.ifs]
@@ -209,6 +214,12 @@ def _hook_driven_checks(index, ctx, td, ini, c, sup, T, PAIR, DICT, overridden, 
                     raises = [n for n in hc.stmt_nodes() if isinstance(n.ast, ast.Raise) and "ValueError" in norm_text(n.ast)]
                     guarded = all(any(t.kind == "test" and any(isinstance(y, ast.Compare) for y in ast.walk(t.ast.test)) for t, _ in hc.guards_of(n)) for n in raises)
                     okh = okh and bool(raises) and guarded
+            reporting = f is not None and not okh and any(isinstance(r_, ast.Return) and r_.value is not None and not (isinstance(r_.value, ast.Constant) and r_.value.value is None) for r_ in ast.walk(f.node)) \
+                and not any(isinstance(x, ast.Raise) for x in ast.walk(f.node))
+            if reporting:
+                # the hook REPORTS (returns something) instead of raising: another layout of the checks, whose obligations this rule does not express
+                ctx.undecided("R6", f"{cname}.{h}", f"`{h}` returns a value instead of raising: the checks are laid out in a form this rule does not read (reporting hooks, one raise site)", cls.loc())
+                continue
             ctx.require(okh, "R6", f"{cname}.{h}", "overrides the hook with ValueError guards", f"{cname} does not override `{h}` with a shape guard raising ValueError", cls.loc())
         if "__init__" in cls.methods:
             ctx.violated("R6", f"{cname}.__init__", f"{cname} overrides __init__ (the checks of TensorDict.__init__ may be skipped)", cls.loc())
